@@ -8,3 +8,6 @@ open Chess.Props.C07
 #print axioms validate_hasKings
 #print axioms parsed_kingSq_ok
 #print axioms satAdd16_le
+#print axioms moveList_capacity
+#print axioms checkMask_assert_ok
+#print axioms reachable_preconditions
